@@ -29,7 +29,9 @@ def prune_state(ctx, r):
 
 
 def one_instance(ctx, r, big=0, prepared=None, legacy=False, only=None):
-    base, v, trace = prepared if prepared else crash.build_state(ctx, r, 8 + r.n(10), big=big, legacy=legacy)
+    # (a legacy-named store is built without plan/compact: the rewriting command under test must be the first one to meet the old name)
+    base, v, trace = prepared if prepared else crash.build_state(ctx, r, 8 + r.n(10), big=big, legacy=legacy,
+                                                                 **({"weights": {"new_task": 34, "new_epic": 8, "set": 30, "claim_oldest": 6, "sequence": 12, "prune_yes": 2}} if legacy else {}))
     try:
         label, argv, stdin = ("prune--yes(tasks+epics)", ["--json", "--agent", "p", "prune", "--yes"], None) if prepared else crash.multi_event_command(r, v)
         for _ in range(200):
